@@ -25,13 +25,20 @@ pub fn structured(rng: &mut Rng, with_io: bool) -> Asm {
     a.add_i(2, 2, 1);
     if rng.bool() { a.st(7, "SAVE7"); a.jsr("SUB2"); a.ld(7, "SAVE7"); }
     a.ret();
-    a.label("SUB2"); a.add_i(3, 3, 1); if rng.chance(1, 4) { a.not(3, 3); } a.ret();
+    a.label("SUB2"); a.add_i(3, 3, 1); if rng.chance(1, 4) { a.not(3, 3); }
+    // optional: the program itself writes the machine control register (needs supervisor rights or ignore_privilege)
+    let mcr_store = MCR_STORE.with(|c| c.get());
+    if mcr_store { a.st(5, "SAVE5"); a.ld(5, "MCRV"); a.sti(5, "MCRP"); a.ld(5, "SAVE5"); }
+    a.ret();
+    if mcr_store { a.label("SAVE5"); a.w(0); a.label("MCRV"); a.w(*rng.pick(&[0x7FFFu16, 0x0001, 0x4000, 0x8000, 0x0000, 0xFFFF])); a.label("MCRP"); a.w(0xFFFE); }
     a.label("COUNT"); a.w(1 + rng.below(4) as u16);
     a.label("CH"); a.w(0x41 + rng.below(26) as u16);
     a.label("SAVE0"); a.w(0); a.label("SAVE7"); a.w(0); a.label("DATA"); a.w(0);
     a.label("STR"); for c in b"ok" { a.w(*c as u16); } a.w(0);
     a
 }
+
+thread_local! { pub static MCR_STORE: std::cell::Cell<bool> = const { std::cell::Cell::new(false) }; }
 
 fn base_setup(id: &str, real: bool, dbg: bool, prog: &Asm, kb: &[u8]) -> Vec<String> {
     let mut v = vec![format!("case {id}"), format!("sim new 0 {} {} 0 0000", real as u8, dbg as u8), "sim mmap fff0 ssp".into(), "sim kbset".into(), "sim dsset".into()];
@@ -52,10 +59,17 @@ pub fn c13(out: &mut Out, ex: &mut Exec, seed: u64, thorough: bool) {
     let mut seen = HashSet::new();
     for id in 0..n {
         let mut prng = rng.fork();
+        // every sixth case: the program stores to the MCR (xFFFE) itself, with ignore_privilege: a store whose bit 15 is
+        // clear must pause run / run_with_limit / step_over / step_out right after it
+        let mcr_store = id % 6 == 5;
+        MCR_STORE.with(|c| c.set(mcr_store));
         let prog = structured(&mut prng, true);
+        MCR_STORE.with(|c| c.set(false));
         let real = rng.chance(1, 3); let dbg = rng.chance(1, 3);
         let kb: Vec<u8> = (0..6 + rng.below(3)).map(|_| 0x61 + rng.below(26) as u8).collect();
         let nwords = prog.words().len() as u16;
+        let base_setup = |id: &str, real: bool, dbg: bool, prog: &Asm, kb: &[u8]| -> Vec<String> { let mut v = base_setup(id, real, dbg, prog, kb); if mcr_store { v[1] = format!("sim new 0 {} {} 1 0000", real as u8, dbg as u8); } v };
+        if mcr_store { out.hist.hit("program_stores_to_mcr"); }
         // A: unbroken
         let mut la = base_setup(&format!("{id}a"), real, dbg, &prog, &kb);
         la.push("sim run 20000".into()); la.push("sim memhash".into());
@@ -86,7 +100,7 @@ pub fn c13(out: &mut Out, ex: &mut Exec, seed: u64, thorough: bool) {
         let rb0 = run_lines(out, ex, &lb);
         out.evaluations += lb.len() as i64;
         for r in &rb0 { out.hist.hit(&format!("res_{}", r.split(' ').next().unwrap_or(""))); if r.contains("hb=1") { out.hist.hit("stopped_at_breakpoint"); } if r.contains("TIMEOUT") { out.hist.hit("timeout"); } }
-        if only_limits && !real && !near_wrap {
+        if only_limits && !real && !near_wrap && !mcr_store {
             let fin = ["sim run 20000".to_string(), "sim memhash".to_string()];
             let rb = run_lines(out, ex, &fin);
             // oracle: split execution ends in the same state and instruction count as the unbroken run
